@@ -21,7 +21,7 @@ ID = 'C09'
 
 MANIFEST = dict(
     technique='explicit-state exploration of save/load operation sequences on real PageLayout objects over a finite variant alphabet (all pages up to 3 lines x all target id-subsets x all component removals x legacy formats); reference model = plain dict; end-to-end re-decoding differential',
-    text='Bounded exhaustive: every page of 0-3 lines over a 30-variant line alphabet (1 line: all; 2 lines: all pairs; 3 lines: 6x6x30), saved through the path and bytes variants and loaded into every layout holding a subset of the ids plus an unknown id (pre-filled with other data), with the save-load-save-load chain, every removal of one or two of {logits, charset, window} from each line under both values of missing_line_logits_ok, and legacy files. Restored matrices must be identical in values and sparsity structure, other lines untouched, missing components reported and nothing written; dense reconstruction keeps stored entries, floors pruned ones and normalises rows; a layout rebuilt from PAGE XML + logits must re-decode (greedy and beam) and export ALTO words identically. Added sub-sweeps: float32 matrices with a dominant entry, pruned entries stored as explicit zeros and csr / coo layouts, 12-line pages, a line that decodes to \'\', saved logits loaded into a layout that was already decoded and exported with other logits, and the page-level confidence filter on the rebuilt layout. ALTO export under min_line_confidence thresholds placed on the stored (three-decimal) and the full-precision line confidences.',
+    text='Bounded exhaustive: every page of 0-3 lines over a 30-variant line alphabet (1 line: all; 2 lines: all pairs; 3 lines: 6x6x30), saved through the path and bytes variants and loaded into every layout holding a subset of the ids plus an unknown id (pre-filled with other data), with the save-load-save-load chain, every removal of one or two of {logits, charset, window} from each line under both values of missing_line_logits_ok, and legacy files. Restored matrices must be identical in values and sparsity structure, other lines untouched, missing components reported and nothing written; dense reconstruction keeps stored entries, floors pruned ones and normalises rows; a layout rebuilt from PAGE XML + logits must re-decode (greedy and beam) and export ALTO words identically. Added sub-sweeps: float32 matrices with a dominant entry, pruned entries stored as explicit zeros and csr / coo layouts, 12-line pages, a line that decodes to \'\', saved logits loaded into a layout that was already decoded and exported with other logits, and the page-level confidence filter on the rebuilt layout. ALTO export under min_line_confidence thresholds placed on the stored (three-decimal) and the full-precision line confidences. Every page is also saved from and loaded into layouts over every pair of page ids (None, equal, one a prefix of the other, a path): only the line ids decide what is restored. Partial files end to end: pages of 2-3 (thorough: 4) painted lines, every non-empty set of lines absent from the logits file (saved from a layout with fewer lines, or as lines without logits under missing_line_logits_ok), loaded into the layout rebuilt from PAGE XML with or without transcriptions and re-decoded: every line that got its logits back re-decodes to the original text, a line absent from the file keeps what it had.',
     note='Matrix shapes up to 5x4; ids from a fixed set; pickle protocol as used by the code.',
     ref='3/C09')
 
@@ -36,9 +36,10 @@ CHARSETS = [['a', 'b', 'c'], ['c', 'b́', 'aa']]
 WINDOWS = ['full', 'inner', 'none']
 VARIANTS = [(m, c, w) for m in range(len(MATS)) for c in range(2) for w in range(3)]
 SUB = [VARIANTS[i] for i in (0, 7, 14, 21, 28, 5)]
-BOUNDS = {'quick': dict(three_line_third='sub'), 'thorough': dict(three_line_third='all')}
+BOUNDS = {'quick': dict(three_line_third='sub', page_ids_on_three_line_pages='two', partial_file_lines=(2, 3)), 'thorough': dict(three_line_third='all', page_ids_on_three_line_pages='all', partial_file_lines=(2, 3, 4))}
 BOUNDS['replay'] = BOUNDS['quick']
 TMP = '/verif/.cache/tmp'
+PAGE_IDS = [None, 'p', 'p.jpg', 'scans/p.tif']      # ids of the saving / the loading PageLayout
 
 
 def setup(tier):
@@ -56,6 +57,9 @@ def shards(tier):
     out.append({'kind': 'e2e'})
     out.append({'kind': 'filter'})
     out.append({'kind': 'big'})
+    for nl in BOUNDS[tier]['partial_file_lines']:
+        for first in range(len(PARTIAL_TEXTS)):
+            out.append({'kind': 'partial', 'n': nl, 'first': first})
     return out
 
 
@@ -67,10 +71,14 @@ def run_shard(shard, ctx, tier):
         for margins in itertools.product(range(len(MARGINS)), repeat=3):
             guarded_check(mod, {'filter': list(margins)}, ctx)
         return
+    if shard.get('kind') == 'partial':
+        for rest in itertools.product(range(len(PARTIAL_TEXTS)), repeat=shard['n'] - 1):
+            guarded_check(mod, {'partial': [shard['first']] + list(rest)}, ctx)
+        return
     if shard.get('kind') == 'big':
         # pages with more lines than one digit can number (ids l1 .. l12: l1 is a prefix of l10, l11, l12)
         for step in (1, 5, 7):
-            guarded_check(mod, {'lines': [list(VARIANTS[(3 + k * step) % len(VARIANTS)]) for k in range(12)]}, ctx)
+            guarded_check(mod, {'lines': [list(VARIANTS[(3 + k * step) % len(VARIANTS)]) for k in range(12)], 'pids': 'two'}, ctx)
         return
     if shard.get('kind') == 'e2e':
         texts = [''.join(p) for n in range(0, 4) for p in itertools.product('ab ', repeat=n)]      # incl. a line that decodes to ''
@@ -91,7 +99,7 @@ def run_shard(shard, ctx, tier):
         third = VARIANTS if BOUNDS[tier]['three_line_third'] == 'all' else VARIANTS[::2]
         for b in SUB:
             for c in third:
-                guarded_check(mod, {'lines': [list(SUB[shard['first']]), list(b), list(c)]}, ctx)
+                guarded_check(mod, {'lines': [list(SUB[shard['first']]), list(b), list(c)], 'pids': BOUNDS[tier]['page_ids_on_three_line_pages']}, ctx)
 
 
 def mat(i):
@@ -114,9 +122,9 @@ def variant_fields(v):
     return M, chars, win
 
 
-def make_page(variants, ids=None, fill=True):
+def make_page(variants, ids=None, fill=True, page_id='p'):
     from pero_ocr.core.layout import PageLayout, RegionLayout, TextLine
-    page = PageLayout(id='p', page_size=(100, 300))
+    page = PageLayout(id=page_id, page_size=(100, 300))
     ids = ids if ids is not None else [f'l{i + 1}' for i in range(len(variants))]
     r1 = RegionLayout('r1', np.asarray([[0, 0], [300, 0], [300, 50], [0, 50]]))
     r2 = RegionLayout('r2', np.asarray([[0, 50], [300, 50], [300, 100], [0, 100]]))
@@ -175,7 +183,7 @@ def check_dense(line, M, ctx, K, desc):
         ctx.tag('explicit-zeros-and-other-sparse-formats')
     lp = line.get_full_logprobs()
     ctx.executed()
-    if np.abs(np.exp(lp.astype(np.float64)).sum(axis=1) - 1).max() > (1e-9 if lp.dtype == np.float64 else 1e-5):   # float32 logits: float32 round-off
+    if not (np.abs(np.exp(lp.astype(np.float64)).sum(axis=1) - 1).max() <= (1e-9 if lp.dtype == np.float64 else 1e-5)):   # float32 logits: float32 round-off; NaN-aware
         ctx.violation('dense-rows-normalised', f'{K}/get_full_logprobs/not-normalised', f'{desc}: row sums {np.exp(lp).sum(axis=1)}')
 
 
@@ -258,6 +266,42 @@ def check_pages(case, ctx):
                     if not ok:
                         ctx.violation('save-load-is-a-fixpoint', f'{K}/chain/differs', f'{desc}: second save differs from the first')
                         return
+    # ---- the id of the PAGE is no part of the contract ("a layout with the same line ids"): a layout's id is whatever built it (imageFilename
+    # of a PAGE XML, the file stem parse_folder passes, a path written by another tool, None for PageLayout()).  Every pair (id of the saving
+    # layout, id of the loading layout) x both save variants; the loading layout holds the same line ids, pre-filled with other data.
+    page_ids = PAGE_IDS if case.get('pids', 'all') == 'all' else PAGE_IDS[1:3]
+    if n:
+        for sid in page_ids:
+            src = make_page(variants, page_id=sid)
+            src.save_logits(path)
+            with open(path, 'rb') as f:
+                pblobs = {'path': f.read(), 'bytes': src.save_logits_bytes()}
+            os.remove(path)
+            ctx.executed(2)
+            for how, blob in pblobs.items():
+                for tid in page_ids:
+                    tgt = make_page(None, ids=ids, fill=False, page_id=tid)
+                    for line in tgt.lines_iterator():
+                        line.logits, line.characters, line.logit_coords = mat(0), ['x', '​'], [0, 1]
+                    if how == 'path':
+                        with open(path, 'wb') as f:
+                            f.write(blob)
+                        tgt.load_logits(path)
+                        os.remove(path)
+                    else:
+                        tgt.load_logits(blob)
+                    ctx.executed()
+                    rel = 'same' if sid == tid else ('none' if sid is None or tid is None else 'other')
+                    for line in tgt.lines_iterator():
+                        M, chars, win = model[line.id]
+                        if not same_sparse(line.logits, M) or list(line.characters or []) != chars or list(line.logit_coords or []) != win:
+                            ctx.violation('restores-identical-matrix', f'{K}/load/page-id-{rel}/line-not-restored/{how}',
+                                          f'{desc0}, saved via {how} from a layout with page id {sid!r}, loaded into a layout with the same line ids and '
+                                          f'page id {tid!r}: line {line.id} holds logits {None if line.logits is None else line.logits.toarray().tolist()}, '
+                                          f'characters {line.characters}, window {line.logit_coords}; saved were {M.toarray().tolist()}, {chars}, {win}')
+                            return
+                    if rel == 'other':
+                        ctx.tag('loaded-into-layout-with-another-page-id')
     if n >= 2:
         ctx.nontrivial(tuple(variants), 'multi-line-pages')
     if n > 9:
@@ -435,6 +479,106 @@ def check_e2e(case, ctx):
     ctx.nontrivial(('e2e', tuple(texts)), 'end-to-end-pages')
 
 
+PARTIAL_TEXTS = ['ab', 'b a', 'a', '']
+
+
+def painted_page(texts, chars):
+    """a one-region page whose k-th line carries CTC-like logits that decode to texts[k]"""
+    from pero_ocr.core.layout import PageLayout, RegionLayout, TextLine
+    from scipy import sparse
+    page = PageLayout(id='p.jpg', page_size=(40 * len(texts) + 20, 300))
+    reg = RegionLayout('r1', np.asarray([[0, 0], [300, 0], [300, 40 * len(texts) + 20], [0, 40 * len(texts) + 20]]))
+    for k, t in enumerate(texts):
+        rows = [3, 3]
+        for ch in t:
+            rows += [chars.index(ch), 3]
+        rows += [3, 3]
+        M = np.zeros((len(rows), 4))
+        for i, s in enumerate(rows):
+            M[i, s] = 6.0 + 0.01 * i
+            M[i, (s + 1) % 4] = -1.0 - 0.01 * i
+        reg.lines.append(TextLine(id=f'r1-l{k:03d}', baseline=np.asarray([[10, 30 + 40 * k], [250, 30 + 40 * k]]),
+                                  polygon=np.asarray([[10, 10 + 40 * k], [250, 10 + 40 * k], [250, 40 + 40 * k], [10, 40 + 40 * k]]),
+                                  heights=[20, 10], logits=sparse.csc_matrix(M), characters=list(chars), logit_coords=[2, len(rows) - 2]))
+    page.regions.append(reg)
+    return page
+
+
+def check_partial(case, ctx):
+    """partial files ("subset ... of line ids"): the layout rebuilt from the PAGE XML gets the logits of SOME of its lines only - the file was
+    saved from a layout holding a subset of the lines, or with missing_line_logits_ok=True from one in which some lines have no logits.  Every
+    non-empty set of absent lines x both ways x PAGE XML with / without the stored transcriptions x decoder.  Re-decoding the rebuilt layout:
+    every line that got its logits back re-decodes to the original's transcription; a line absent from the file is left as it was."""
+    from pero_ocr.core.layout import PageLayout
+    from pero_ocr.document_ocr.page_parser import PageDecoder
+    from pero_ocr.decoding.decoders import GreedyDecoder, CTCPrefixLogRawNumpyDecoder, BLANK_SYMBOL
+    texts = [PARTIAL_TEXTS[i] for i in case['partial']]
+    n = len(texts)
+    chars = ['a', 'b', ' ', '​']
+    page = painted_page(texts, chars)
+    ctx.state(('partial', tuple(texts)))
+    letters = chars[:-1] + [BLANK_SYMBOL]
+    decs = {'greedy': lambda: GreedyDecoder(letters), 'beam': lambda: CTCPrefixLogRawNumpyDecoder(letters, 4)}
+    for name in case.get('decoders', ['greedy', 'beam']):
+        mk = decs[name]
+        orig = copy.deepcopy(page)
+        PageDecoder(mk()).process_page(orig)
+        ctx.executed()
+        t1 = [l.transcription for l in orig.lines_iterator()]
+        ids = [l.id for l in orig.lines_iterator()]
+        xml_with = orig.to_pagexml_string()
+        bare = copy.deepcopy(orig)
+        for l in bare.lines_iterator():
+            l.transcription = None
+        xmls = {'with-transcriptions': xml_with, 'layout-only': bare.to_pagexml_string()}
+        for r in range(1, n + 1):
+            for absent in itertools.combinations(range(n), r):
+                for how in ('file-of-a-layout-with-fewer-lines', 'lines-without-logits-saved-as-allowed'):
+                    src = copy.deepcopy(orig)
+                    if how == 'file-of-a-layout-with-fewer-lines':
+                        for reg in src.regions:
+                            reg.lines = [l for l in reg.lines if ids.index(l.id) not in absent]
+                        blob = src.save_logits_bytes()
+                    else:
+                        for k, l in enumerate(src.lines_iterator()):
+                            if k in absent:
+                                l.logits = None
+                        blob = src.save_logits_bytes(missing_line_logits_ok=True)
+                    for xname, xml in xmls.items():
+                        rebuilt = PageLayout()
+                        rebuilt.from_pagexml_string(xml)
+                        before = [l.transcription for l in rebuilt.lines_iterator()]
+                        rebuilt.load_logits(blob)
+                        got_logits = [l.logits is not None for l in rebuilt.lines_iterator()]
+                        PageDecoder(mk()).process_page(rebuilt)
+                        ctx.executed(4)
+                        t2 = [l.transcription for l in rebuilt.lines_iterator()]
+                        desc = (f'lines {texts}, decoder {name}: PAGE XML ({xname}) + a logits file lacking the lines {[ids[k] for k in absent]} '
+                                f'({how}): original transcriptions {t1}, in the rebuilt layout before decoding {before}, after re-decoding {t2}')
+                        if [l.id for l in rebuilt.lines_iterator()] != ids or got_logits != [k not in absent for k in range(n)]:
+                            ctx.violation('restores-identical-matrix', f'{ID}/e2e/partial-file/wrong-lines-got-logits/{how}',
+                                          f'{desc}; lines holding logits after load_logits: {got_logits}')
+                            return
+                        for k in range(n):
+                            if k not in absent and t2[k] != t1[k]:
+                                ctx.violation('rebuilt-layout-redecodes-identically', f'{ID}/e2e/partial-file/line-with-logits-redecodes-differently/{how}',
+                                              f'{desc}; line {ids[k]} has its logits but is {t2[k]!r} instead of {t1[k]!r}')
+                                return
+                        for k in absent:
+                            if t2[k] != before[k]:
+                                ctx.violation('absent-lines-untouched', f'{ID}/e2e/partial-file/line-without-logits-got-another-transcription/{how}',
+                                              f'{desc}; line {ids[k]} is absent from the file and was {before[k]!r}, now {t2[k]!r}')
+                                return
+                        later = [j for j in range(n) if j not in absent and j > min(absent)]
+                        if later and any(t1[j] != t1[j - 1] for j in later):
+                            ctx.tag('line-without-logits-before-lines-with-logits')
+                        if xname == 'layout-only' and any(k not in absent and t2[k] for k in range(n)):
+                            ctx.tag('partial-file-into-layout-only-xml')
+        ctx.outcome(('partial', tuple(t1)))
+    if len(set(texts)) > 1:
+        ctx.nontrivial(('partial', tuple(texts)), 'partial-file-pages')
+
+
 MARGINS = [1.0, 0.4, 2.0008, 3.3, 0.05]
 
 
@@ -485,6 +629,8 @@ def check_filter(case, ctx):
 def check_case(case, ctx):
     if 'filter' in case:
         return check_filter(case, ctx)
+    if 'partial' in case:
+        return check_partial(case, ctx)
     if 'e2e' in case:
         check_e2e(case, ctx)
     else:
@@ -496,9 +642,14 @@ def describe(tier):
         'rule': 'all pages of 0..3 lines over the 30-variant line alphabet (3 lines: 6 x 6 x 15|30); for each page both save variants + two '
                 'legacy formats, every target id-subset (incl. an unknown id) with pre-filled lines, the save/load chain, and every removal '
                 'of 1-2 components x missing_line_logits_ok; end-to-end pages: 39 x 2 painted texts x 2 decoders. state = distinct page. '
-                'Non-trivial: pages with >= 2 lines (id association matters) and end-to-end pages.',
+                'Non-trivial: pages with >= 2 lines (id association matters) and end-to-end pages. Every page additionally saved from / loaded into layouts '
+                'over every pair of page ids (4 x 4; 3-line pages quick: 2 x 2) x both save variants; partial-file end-to-end pages: all pages of 2..3 (thorough: 4) '
+                'lines over 4 painted texts x every non-empty set of absent lines x 2 ways of producing the partial file x PAGE XML with / without '
+                'transcriptions x 2 decoders.',
         'bounds': BOUNDS[tier],
-        'alphabets': {'matrices': MATS, 'charsets': CHARSETS, 'windows': WINDOWS},
+        'alphabets': {'matrices': MATS, 'charsets': CHARSETS, 'windows': WINDOWS, 'page_ids': PAGE_IDS, 'partial_file_texts': PARTIAL_TEXTS},
         'assumptions': ['no stored entry is exactly 0.0 (precondition of the format)', 'line ids never equal the table keys'],
-        'min_nontrivial': 100, 'required_tags': ['confidence-threshold-drops-some-lines', 'multi-line-pages', 'missing-component-cases', 'end-to-end-pages', 'filter-splits-the-page', 'logits-loaded-into-a-used-layout', 'more-than-nine-lines', 'explicit-zeros-and-other-sparse-formats'],
+        'min_nontrivial': 100, 'required_tags': ['confidence-threshold-drops-some-lines', 'multi-line-pages', 'missing-component-cases', 'end-to-end-pages', 'filter-splits-the-page', 'logits-loaded-into-a-used-layout', 'more-than-nine-lines', 'explicit-zeros-and-other-sparse-formats',
+                                               'loaded-into-layout-with-another-page-id', 'partial-file-pages', 'line-without-logits-before-lines-with-logits',
+                                               'partial-file-into-layout-only-xml'],
     }
